@@ -31,6 +31,9 @@ def well_formed(ctx, r, what, minor=None):
             what, r.status, (r.error_detail or '')[:300]), sig=what)
         return
     if r.status >= 400:
+        if not getattr(r, 'accepts_json', True):
+            # "when the client accepts JSON": this client does not
+            return
         js = r.json
         okb = isinstance(js, dict) and isinstance(js.get('errors'), list) \
             and js['errors'] and all(
